@@ -2,6 +2,7 @@ mod c01;
 mod c02;
 mod c03;
 mod c12;
+mod codec;
 mod common;
 mod crash;
 mod hist;
@@ -24,6 +25,8 @@ fn engine_for(prop: &str) -> Box<dyn Engine> {
         "C02" => Box::new(c02::C02),
         "C03" => Box::new(c03::C03),
         "C12" => Box::new(c12::C12),
+        "C14" => Box::new(codec::C14),
+        "C16" => Box::new(codec::C16),
         "C04" => Box::new(qeng::QueryEngine {
             prop: "C04",
             suite: qeng::c04_suite,
